@@ -530,3 +530,10 @@ func init() {
 	addMutant(Mutant{Name: "c06-final-dollar-ignores-escape", Property: "C06", File: "util/yang.go",
 		Old: "\t\tfinalAnchor := i == last && ch == '$' && !inEscape", New: "\t\tfinalAnchor := i == last && ch == '$'", Expect: "final-dollar#"})
 }
+
+func init() {
+	addMutant(Mutant{Name: "c28-list-entry-field-not-uniquified", Property: "C28", File: "protogen/protogen.go",
+		Old: "\t\tName: genutil.MakeNameUnique(safeProtoIdentifierName(args.field.Name), definedFieldNames),", New: "\t\tName: safeProtoIdentifierName(args.field.Name),", Expect: "genListKeyProto:field-name#"})
+	addMutant(Mutant{Name: "c28-enum-number-unbounded", Property: "C28", File: "protogen/protogen.go",
+		Old: "\t\tif int64(enumDef.Value)+1 > math.MaxInt32 || int64(enumDef.Value)+1 < math.MinInt32 {", New: "\t\tif int64(enumDef.Value)+1 > math.MaxInt64-1 {", Expect: "genProtoEnum:value-number"})
+}
